@@ -22,10 +22,103 @@ def concurrent_part(ctx):
     conccheck.run(ctx, KINDS)
 
 
+SEQ_STREAMS = (
+    ("fs", "MemFS", "C07_memfs_total (pending) / the world model of Fs/World.v"),
+    ("orefa", "OrefaFS", "C07_orefa_total, C07_orefa_run (Fs/OrefaTotal.v)"),
+)
+
+
+def _first_bad_step(observed):
+    for k, r in enumerate(observed.split(" | ")):
+        toks = r.split()
+        if "PANIC" in toks or "DEADLOCK" in toks or r.strip() in ("PANIC", "DEADLOCK"):
+            return k, r.strip()
+    return None
+
+
+def sequential_streams(ctx):
+    """The histories of the `fs` (MemFS) and `orefa` (OrefaFS) world streams, adversarial arguments included:
+    (1) implementation and model must agree (the totality theorems are about the model), (2) no call of the
+    IMPLEMENTATION may panic or fail to return (PANIC / DEADLOCK outcome): the history up to that call is the replay."""
+    import os
+    from ..props import report_mismatches
+    for name, what, thm in SEQ_STREAMS:
+        st = {"name": name, "harness": name, "driver": name}
+        mm = ctx.stream(name, name, name)
+        if mm is None:
+            return
+        report_mismatches(ctx, mm, st, what + " differs from its model (%s are statements about that model) on %%d histories" % thm)
+        bad = []
+        with open(os.path.join(ctx.dir, name + ".cases")) as fc, open(os.path.join(ctx.dir, name + ".observed")) as fo:
+            for c, o in zip(fc, fo):
+                hit = _first_bad_step(o.rstrip("\n"))
+                if hit:
+                    parts = c.rstrip("\n").split(" | ")
+                    bad.append((len(parts), " | ".join(parts[:hit[0] + 2]), hit[1]))
+        ctx.coverage.setdefault("sequential_outcomes", {})[name] = {"histories_with_panic_or_deadlock": len(bad)}
+        bad.sort()
+        for (_, case, res) in bad[:2]:
+            ctx.violation("seq-" + name, "%s: a call of a sequential history did not return normally (%s) - %d such histories in this run" % (what, res, len(bad)),
+                          {"engine": "c07-seq", "seq_stream": st, "case": case, "outcome": res})
+
+
+SEQUENTIAL_PARTS.append(sequential_streams)
+
+
+def sequential_corpus(ctx):
+    """Fixed witness histories (corpus/fs-witness.cases): model agreement, and no PANIC/DEADLOCK outcome."""
+    import os
+    from .c01 import fs_corpus_part
+    fs_corpus_part(ctx)
+    for name in ("fs-corpus", "orefa-corpus"):
+        fo = os.path.join(ctx.dir, name + ".observed")
+        fc = os.path.join(ctx.dir, name + ".cases")
+        if not os.path.exists(fo):
+            continue
+        for c, o in zip(open(fc), open(fo)):
+            hit = _first_bad_step(o.rstrip("\n"))
+            if hit:
+                parts = c.rstrip("\n").split(" | ")
+                ctx.violation("seq-" + name, "a call of a fixed witness history did not return normally (%s)" % hit[1],
+                              {"engine": "c07-seq", "seq_stream": {"name": name, "harness": name.split("-")[0], "driver": name.split("-")[0]},
+                               "case": " | ".join(parts[:hit[0] + 2]), "outcome": hit[1]})
+
+
+SEQUENTIAL_PARTS.append(sequential_corpus)
+
+
+def adversarial_arguments(ctx):
+    """Implementation-only smoke run with extreme arguments on every file system type and the identity manager
+    (harness command `advers`): every call must return (no panic, no hang, no fatal runtime error)."""
+    import json, os
+    from .. import build_go, sh, GOENV
+    ok, out, binp = build_go("")
+    if not ok:
+        ctx.broken("harness-build", "the Go harness does not build against /repo's working tree", out[-3000:])
+        return
+    rc, out = sh("ulimit -v 16000000; %s advers -out %s -name advers" % (binp, ctx.dir), cwd=ctx.dir, env=GOENV, timeout=900)
+    res = {}
+    try:
+        res = json.load(open(os.path.join(ctx.dir, "advers.advers.json")))
+    except Exception:
+        pass
+    fails = res.get("failures") or []
+    ctx.coverage.setdefault("sequential_outcomes", {})["adversarial"] = {"calls_groups": res.get("cases", 0), "failures": len(fails), "exit": rc}
+    ctx.coverage["evaluations"] += res.get("cases", 0)
+    if rc != 0 or fails:
+        what = "a call with extreme arguments panicked, did not return or crashed the process: %s" % (fails[:2] if fails else out[-300:])
+        ctx.violation("seq-advers", what, {"engine": "c07-advers", "failures": fails, "exit": rc, "log": out[-2000:],
+                                           "replay": "harness/bin/avfscheck-base advers -out <dir> -name advers"})
+
+
+SEQUENTIAL_PARTS.append(adversarial_arguments)
+
+
 def check_C07(ctx):
     ctx.level = "proof"
     ctx.coverage["level_claimed"] = {
-        "text": "PARTIAL (concurrent part): proved: C07_order, C07_order_reachable (generic), C07_finished_hold_nothing, "
+        "text": "PARTIAL. Sequential: proved C07_orefa_total, C07_orefa_run (OrefaFS model); MemFS totality theorem pending, "
+                "its model is only tied and observed (fs stream: no PANIC/DEADLOCK outcome of the implementation). Concurrent: proved: C07_order, C07_order_reachable (generic), C07_finished_hold_nothing, "
                 "C07_excl_calls_never_deadlock, C07_traces, C07_rename_free_never_deadlocks (MemFS machines, no Rename); "
                 "refuted: C07_refuted_rename_rename, C07_refuted_orefa_*; deadlocks/panics of programs with Rename and of "
                 "OrefaFS are found by exploration of the real code (bounded schedules), not excluded by proof"}
@@ -36,6 +129,23 @@ def check_C07(ctx):
 
 
 def replay_C07(ctx, obj):
+    if obj.get("engine") == "c07-seq":
+        import os
+        st = obj["seq_stream"]
+        mm = ctx.stream(st["name"] + "-replay", st["harness"], st["driver"], replay_lines=[obj["case"]])
+        if mm is None:
+            return ctx.finish(write_evidence=False)
+        o = open(os.path.join(ctx.dir, st["name"] + "-replay.observed")).read().strip()
+        hit = _first_bad_step(o)
+        if hit:
+            print("replay: step %d still ends in %s" % hit)
+            ctx.violation("replay", obj.get("what", "replayed history still fails"), dict(obj, observed=o))
+        elif mm:
+            print("replay: every call returns, but implementation and model differ\n model:    %s\n observed: %s" % (mm[0][2], mm[0][3]))
+            ctx.violation("replay", "implementation and model differ on the replayed history", dict(obj, model=mm[0][2], observed=mm[0][3]))
+        else:
+            print("replay: every call of the history returns now; implementation and model agree")
+        return ctx.finish(write_evidence=False)
     return conccheck.replay(ctx, obj, KINDS)
 
 
